@@ -70,6 +70,18 @@ class MyBase(BaseException):
     pass
 
 
+class Falsy(Exception):
+    """an exception object that is falsy"""
+    def __bool__(self):
+        return False
+
+
+class EmptySized(Exception):
+    """an exception class with a length (e.g. one that carries a list of sub-errors): len() == 0 makes it falsy"""
+    def __len__(self):
+        return len(self.args) - 1
+
+
 def _twin(tag):
     class ValidationError(Exception):          # distinct classes that share a __name__ (pkg_a / pkg_b)
         origin = tag
@@ -137,9 +149,10 @@ def fault_pair(e1: int, e2: int, site1: int, site2: int, kwi: int, a: int) -> bo
     return ok or fail(why='class/args of the second error', e=e, mro=type(e).__mro__, second=second)
 
 
-NEXC = 16
+NEXC = 18
 EXC_NAMES = ['KeyError', 'ValueError', 'TypeError', 'ZeroDivisionError', 'OSError', 'UnicodeDecodeError', 'StopIteration',
-             'UserAttr', 'KwOnly', 'Arity', 'MyGlom', 'MyGlomInit', 'MyGlomKw', 'MyBase', 'AssertionError', 'LookupError']
+             'UserAttr', 'KwOnly', 'Arity', 'MyGlom', 'MyGlomInit', 'MyGlomKw', 'MyBase', 'AssertionError', 'LookupError', 'Falsy',
+             'EmptySized']
 
 
 def make_exc(k, a):
@@ -173,6 +186,10 @@ def make_exc(k, a):
         return MyBase(a)
     if k == 14:
         return AssertionError()
+    if k == 16:
+        return Falsy(a)
+    if k == 17:
+        return EmptySized(a)
     return LookupError(a, 'x')
 
 
